@@ -330,6 +330,35 @@ def analyse_method(run, pkg, K, m, attrs, ex):
                     ok = hit == [want]
                     run.ob("R-SEL", fq, key, ok, f"centre species {ta}, neighbour species {tb} is counted in exactly {want}",
                            f"selected columns: {hit}", witness=None if ok else f"type_i={ta}, type_j={tb} -> {hit or 'no column'}", loc=fi.loc(), sound=True)   # finite evaluation of every selector on this species pair
+        # the same enumeration with UNSIGNED type ids (HOOMD / GSD frames carry uint32 ids; the readers hand them on as they
+        # are): differences wrap modulo 2**32, so a selector built on |t_j - t_i| needs a signed operand
+        if not misaligned:
+            from .grlib import TV
+            bad_u = []
+            for ta in range(1, K + 1):
+                for tb in range(1, K + 1):
+                    hit = []
+                    try:
+                        for c, lst in masks.items():
+                            if c in ("r", "gr"):
+                                continue
+                            for mk, ev in lst:
+                                if mk is None or eval_pair(mk, TV(ta, "u"), TV(tb, "u"), type_of, ivar):
+                                    hit.append(c)
+                    except (Undecidable, Misaligned):
+                        bad_u = None
+                        break
+                    if hit != [f"gr{min(ta, tb)}{max(ta, tb)}"]:
+                        bad_u.append((ta, tb, hit))
+                if bad_u is None:
+                    break
+            if bad_u is None:
+                run.ob("R-SEL", fq, f"K={K} unsigned ids", None, "species pairs are classified identically when the type ids are unsigned integers", "selector not evaluable", loc=fi.loc())
+            else:
+                run.ob("R-SEL", fq, f"K={K} unsigned ids", not bad_u, "species pairs are classified identically when the type ids are unsigned integers (uint32 ids of HOOMD/GSD frames)",
+                       "" if not bad_u else f"{len(bad_u)} of {K * K} ordered pairs misclassified",
+                       witness=None if not bad_u else f"uint32 ids: type_i={bad_u[0][0]}, type_j={bad_u[0][1]} -> {bad_u[0][2] or 'no column'} (t_j - t_i wraps to 2**32 - {abs(bad_u[0][0] - bad_u[0][1])})",
+                       loc=fi.loc(), sound=True)
         for c, (w, ev) in misaligned.items():
             run.ob("R-ALIGN", fq, f"{c}:types", False, "species ids in the selector belong to the same particles as the distances", w,
                    witness=w, loc=loc_of(it, ev), sound=True)
